@@ -1119,3 +1119,8 @@ def run(prog, rep, tier, snap):
     rep.rule("R05.10", "a run-as or owner name inherited from the calendar level is the event's own copy, not freed memory (shared with C05)", 3)
     rep.call(c05.r05_10, prog, rep)
 READY = True
+
+# texts brought up to date with the rules added in the last rounds
+LEVEL_TEXT = LEVEL_TEXT + " Also: the connection allocator hands out a record that is free (walk over free-masks); a submission makes a new record only when the table holds none under that UID; the re-hash fills a fresh table; the submitted task's owner slot is reset to the authenticated uid before it is bound."
+TECHNIQUE = (TECHNIQUE if isinstance(TECHNIQUE, str) else TECHNIQUE) + '; value-fixed walks of the allocator and the submission path'
+
